@@ -38,16 +38,16 @@ claim('C02', 'proof', K1 + '; ' + K2 + '; ' + BD,
       'zlib.decompressobj assumed (documented contract); address_offsets completeness (every containing PT_LOAD segment is yielded, in order) and independence between same-named sections are covered by the bounded contents differential only (overlapping / nested / abutting segments; same-named compressed sections); binutils rule scoped to the four condition groups of the statement')
 claim('C03', 'proof', K1 + '; ' + K2 + '; ' + BD,
       'Elf_Sym (both classes, bit structs), syminfo, hash headers K2; symbol addressing by sh_entsize, names through the linked string table, index section, syminfo; SysV and GNU hash functions proved equal to the standard 32-bit functions for every name; GNU symbol-count recovery proved (walks the highest bucket chain to its end bit), SysV count; linked-section validators',
-      'hash lookups: the GNU chain walk (found and fixed a shared-stream defect) and the SysV chain walk are under contract (every index on the chain examined, candidates are the symbols of those indices; no termination claim for cyclic SysV chains); the bloom filter test is an ASSUMED contract, covered with the end-to-end behaviour by the bounded hash differential (tables built from the specification, engineered collisions); get_symbol_by_name map construction not under contract')
+      'hash lookups: the GNU chain walk (found and fixed a shared-stream defect) and the SysV chain walk are under contract (every index on the chain examined, candidates are the symbols of those indices; no termination claim for cyclic SysV chains); the bloom filter test is an ASSUMED contract, covered with the end-to-end behaviour by the bounded hash differential (tables built from the specification, engineered collisions); the construction of the name map of get_symbol_by_name is not under contract: decided by the bounded symbol-table differential (repeated, empty and non-ASCII names, fresh and used objects)')
 claim('C08', 'proof', K1 + '; ' + K2 + '; ' + GR + '; ' + BD,
-      'Elf_Rel/Rela/Relr incl. MIPS64 layout and r_info lambdas K2 (lambdas proved by z3); relocation table addressing; RELR expansion proved by step refinement (anchor/bitmap/base advance); every supported (machine, type) recipe: width, addend source, and calc function proved equal to the psABI formula for all operands',
-      '_do_apply_relocation / find_relocations_for_section / apply_section_relocations are not under K1 contract: covered by a bounded differential (objects written by an independent ELF writer for every supported (machine, type), result compared with the ABI formula); MIPS RELA in-place addend is a recorded known finding')
+      'Elf_Rel/Rela/Relr incl. MIPS64 layout and r_info lambdas K2 (lambdas proved by z3); relocation table addressing; RELR expansion proved by step refinement (anchor/bitmap/base advance); every supported (machine, type) recipe: width, addend source, and calc function proved equal to the psABI formula for all operands; applying one relocation (RelocationHandler._do_apply_relocation, postconditions generated from the psABI oracle with registry type numbers): for every supported (machine, flavour, type) the field at r_offset holds the formula of the symbol value, addend, place and previous field value wrapped to the field width and every other byte of the section keeps its value; an out-of-range symbol index, the wrong flavour for the machine and a type outside the supported set never return; the architecture-name dispatch (get_machine_arch) is proved for the nine machines with recipe tables',
+      'the write of the relocated field is an ASSUMED contract of construct\'s builder (exactly the field\'s bytes at the position, every other byte kept, the written field parses back to the value); find_relocations_for_section / apply_section_relocations (the loop over a table) and the loading path in ELFFile are not under K1 contract: covered by the bounded differential (objects written by an independent ELF writer for every supported (machine, type), result compared byte for byte with the ABI formula); RELR expansion also has a bounded backstop differential; MIPS RELA in-place addend is a recorded known finding (ground recipe obligation and the two K1 value clauses)')
 claim('C09', 'proof', K1 + '; ' + K2 + '; ' + BD,
       'Elf_Dyn K2 incl. machine/OS specific tag tables; raw tag addressing, walk to DT_NULL (with termination variant), table pointer lookup (first entry bearing the tag) mapped through loadable segments, string tags through the dynamic string table, tag count; GNU/SysV symbol count',
       '_get_stringtable assumed; the public iter_tags is proved to wrap exactly the raw walk; get_relocation_tables, DynamicSegment.num_symbols fallback path / get_symbol / constructors are not under K1 contract: covered by the bounded differential of section-less images (independent ELF writer: PT_LOAD + PT_DYNAMIC, string/symbol/hash/REL/RELA/JMPREL tables; lookup by name incl. several symbols of one name, on fresh and used objects)')
 claim('C13', 'proof', K1 + '; ' + K2 + '; ' + BD,
       'aranges set parsing (alignment, tuple walk to the (0,0) terminator, appended entries), bisect lookup under disjointness, unit cache representation invariant with RI-preserving interference at yields, offset-exact and containing lookups; headers K2',
-      'NameLUT is not under K1 contract (string-keyed dictionary built in a nested loop): covered by the bounded name-table differential (UTF-8 names, several sets); _parse_CU_at_offset is checked (unit header layout K2, DWARFStructs construction modelled); float ceil exact below 2^53; 32-bit DWARF sets; disjoint ranges assumed for the lookup')
+      'NameLUT is not under K1 contract (string-keyed dictionary built in a nested loop): covered by the bounded name-table differential (UTF-8 names, several sets); a bounded address-range differential (sets with padding, ranges starting at address 0, boundary probes) is the backstop of the K1 contracts of aranges.py; _parse_CU_at_offset is checked (unit header layout K2, DWARFStructs construction modelled); float ceil exact below 2^53; 32-bit DWARF sets; disjoint ranges assumed for the lookup')
 claim('C15', 'proof', K1 + '; ' + K2 + '; ' + BD,
       'version records K2; entry and auxiliary chains by displacement (recursive offset spec), names via linked string table, requirement names, definition index resolution, versym entries, linked-section validation',
       'GNUVerNeedSection.get_version (searches every entry and auxiliary) and has_indexes (False only if every vna_other is 0; memoised) are under contract; a bounded differential over generated images (three version sections with padded chains, symbols, both classes and byte orders, queries in shuffled orders on fresh and used objects) covers the public methods end to end and keeps deciding when one is rewritten in a form the engine rejects')
